@@ -497,5 +497,23 @@ def run(chk, prog):
         late = [f_ for f_ in fills.get(src, []) if stmt_end(f_) > x["id"] and f_ is not x]
         chk.check(not late, "R10", A.loc(ctor, x), "%s.add(%s): every statement that fills %s comes before (%d later: lines %s)"
                   % (dst, src, src, len(late), sorted({f_["line"] for f_ in late})), "options:group-copied-before-filled:%s<-%s" % (dst, src))
+    # ---- R11: a value is looked at only after it has been delivered ------------------------------------------------------------------------------------
+    # store() fills the variables map; the bound members receive their values in notify().  A member read in parse() before the first
+    # notify() on that path still holds the constructor's value (a "was a file named?" flag computed there is always the default's answer)
+    bound_fields = {o.field for o in t.options if getattr(o, "field", None)} if hasattr(t, "options") else set()
+    if not bound_fields:
+        bound_fields = {o.field for grp in t.by_group.values() for o in grp if getattr(o, "field", None)}
+    reads_of_bound = lambda n: n.get("k") == "MemberExpr" and A.this_field(n) in bound_fields
+    res11 = g.every_path_to(reads_of_bound, is_notify)
+    n11 = 0
+    seen11 = set()
+    for (b_, i_, n_), ok_ in res11:
+        fld_ = A.this_field(n_)
+        n11 += 1
+        if (fld_, ok_) in seen11:
+            continue
+        seen11.add((fld_, ok_))
+        chk.check(ok_, "R11", A.loc(pf, n_), "parse() reads %s only after a notify() has delivered the parsed value on every path" % fld_, "parse:read-before-notify:%s" % fld_)
+    chk.floor("R11-reads-of-bound-members", n11, 3)
     chk.notes.append("C20: store order and targets, _vm writers, alias truth tables on a finite model of boost store/notify instantiated "
                      "with the extracted option table, ignored-option fields, cli/file agreement, error discipline. Exhaustive over the table.")
